@@ -31,7 +31,7 @@ package olareg
 //@   assert [listing-sorted] before call json.Marshal#1: tagsSorted(tl.Tags)
 //@   assert [listing-sound] before call json.Marshal#1: tagsSound(tl.Tags, index, last, len(index.Manifests))
 //@   assert [listing-page] before call json.Marshal#1: n != "" && atoiOK(n) && atoi(n) >= 0 ==> len(tl.Tags) <= atoi(n)
-//@   assert [listing-complete] before call json.Marshal#1: forall k: int :: 0 <= k && k < len(index.Manifests) && qualifies(index, k, last) &&
+//@   assert [listing-complete] uses(1:complete, 1:shape, 1:distinct) before call json.Marshal#1: forall k: int :: 0 <= k && k < len(index.Manifests) && qualifies(index, k, last) &&
 //@             (n == "" || !atoiOK(n) || atoi(n) < 0 || len(tl.Tags) < atoi(n) || (len(tl.Tags) > 0 && !strlt(tl.Tags[len(tl.Tags)-1], tagAt(index, k)))) ==> listedIn(tl.Tags, tagAt(index, k))
 //@   loop 1: invariant [shape] rangeindex < len(index.Manifests) && tl.Tags != nil && types.wfW1(index)
 //@   loop 1: invariant [distinct] tagsDistinct(tl.Tags)
@@ -80,7 +80,9 @@ package olareg
 //@   ensures [no-5xx-without-fault] w.status >= 500 ==> fault()
 
 //@ func (s *Server) manifestDelete$1(w http.ResponseWriter, r *http.Request)
-//@   props C15 C03 C14
+//@   props C15 C03 C14 C07
+//@   -- deleting a tag leaves the manifest in place, so it stays a referrer of its subject: the response is only updated for a digest
+//@   assert [tag-delete-keeps-referrer]{C07} before call Server.manifestDelete$1$1#1: !re_RefTagRE(arg)
 //@   requires handlerPre(s, w, r)
 //@   requires [name-valid]{C16} nameOK(repoStr)
 //@   ensures [status-class] w.status == 202 || w.status == 400 || w.status == 403 || w.status == 404 || w.status == 500
@@ -100,6 +102,8 @@ package olareg
 //@   ensures [range-refusal-clean] w.status == 416 ==> same(BlobCreator.written)
 //@   assert [state-refusal-clean] before "ErrInfoBlobUploadInvalid": same(BlobCreator.written)
 //@   assert [session-refusal-clean] before "ErrInfoBlobUploadUnknown": same(BlobCreator.written)
+//@   -- data is only accepted when the state token names exactly the number of bytes received so far
+//@   assert [state-matches-size] before "io.Copy(bc, r.Body)": stateIn.Offset == bc.size
 
 //@ func (s *Server) blobUploadPut$1(w http.ResponseWriter, r *http.Request)
 //@   props C15 C08 C01
@@ -110,6 +114,7 @@ package olareg
 //@   ensures [range-refusal-clean] w.status == 416 ==> same(BlobCreator.written)
 //@   assert [state-refusal-clean] before "invalid state": same(BlobCreator.written)
 //@   assert [digest-refusal-clean] before "ErrInfoDigestInvalid": same(BlobCreator.written)
+//@   assert [state-matches-size] before "io.Copy(bc, r.Body)": stateIn.Offset == bc.size
 //@   assert [created-after-close]{C01,C09} before "WriteHeader(http.StatusCreated)": blobReady()
 
 //@ func (s *Server) blobUploadPost$1(w http.ResponseWriter, r *http.Request)
@@ -128,15 +133,24 @@ package olareg
 //@   ensures [created-on-success] err == nil ==> w.status == (old(w.status) == 0 ? 201 : old(w.status)) && blobReady()
 //@   ensures [fault-monotone] old(fault()) ==> fault()
 
+//@ pred isImageMT(mt) := mt == types.MediaTypeOCI1Manifest || mt == types.MediaTypeDocker2Manifest
+//@ pred isIndexMT(mt) := mt == types.MediaTypeOCI1ManifestList || mt == types.MediaTypeDocker2ManifestList
+
 //@ func (s *Server) manifestPut$1(w http.ResponseWriter, r *http.Request)
-//@   props C15 C04 C09 C14
-//@   requires handlerPre(s, w, r)
+//@   props C15 C04 C09 C14 C02
+//@   requires handlerPre(s, w, r) && !truncated()
 //@   requires [name-valid]{C16} nameOK(repoStr)
 //@   ensures [status-class] w.status == 201 || w.status == 400 || w.status == 403 || w.status == 413 || w.status == 500
 //@   ensures [no-5xx-without-fault] w.status >= 500 ==> fault()
 //@   ensures [refuse-clean]{C04} 400 <= w.status && w.status < 500 ==> mutations() == old(mutations())
 //@   ensures [read-only-refused]{C14} old(*s.conf.Storage.ReadOnly) ==> w.status == 403 && mutations() == old(mutations())
 //@   assert [ack-after-durable]{C09} before "WriteHeader(http.StatusCreated)": blobReady()
+//@   assert [stored-is-whole-body]{C02} before "WriteHeader(http.StatusCreated)": !truncated()
+//@   -- the reference is a tag or the digest of the body, whatever the digest parameter says (C04, C01)
+//@   assert [reference-is-tag-or-body-digest]{C04,C01} before "WriteHeader(http.StatusCreated)": re_RefTagRE(arg) || arg == d
+//@   -- every path to acceptance passes the existence checks; there the media type agrees with the body's own mediaType field
+//@   assert [media-type-consistent-image]{C04} before "s.manifestVerifyImage(": m.MediaType == "" || m.MediaType == mt
+//@   assert [media-type-consistent-index]{C04} before "s.manifestVerifyIndex(": m#2.MediaType == "" || m#2.MediaType == mt
 
 //@ func (s *Server) manifestVerifyImage(repo store.Repo, m types.Manifest) (es []types.ErrorInfo)
 //@   props C04 C15
@@ -181,6 +195,7 @@ package olareg
 //@ func (s *Server) manifestDelete$1$1() (err error)
 //@   props C07 C15
 //@   requires s != nil && repo != nil
+
 //@   ensures [fault-monotone] old(fault()) ==> fault()
 
 //@ -- ------------------------------------------------------------------
@@ -228,7 +243,7 @@ package olareg
 
 //@ func (s *Server) ServeHTTP(resp http.ResponseWriter, req *http.Request)
 //@   props C15 C14 C19 C16
-//@   requires s != nil && resp != nil && req != nil && req.URL != nil && resp.status == 0 && !fault() && !held(s.mu)
+//@   requires s != nil && resp != nil && req != nil && req.URL != nil && resp.status == 0 && !fault() && !held(s.mu) && !truncated()
 //@   requires s.store != nil ==> serverInv(s) && cacheInv(s.referrerCache) && !held(s.referrerCache.mu) && pagesNonEmpty(s)
 //@   requires s.store != nil && s.conf.API.RateLimit > 0 ==> s.rateLimit != nil && cacheInv(s.rateLimit) && !held(s.rateLimit.mu) && (s.referrerCache.timer == nil || s.referrerCache.timer != s.rateLimit.timer)
 //@   ensures [answered] resp.status != 0
@@ -239,4 +254,17 @@ package olareg
 //@             400 <= resp.status && resp.status < 500 && mutations() == old(mutations())
 //@   ensures [reads-do-not-mutate]{C14} req.Method == "GET" || req.Method == "HEAD" ==> mutations() == old(mutations())
 //@   ensures [lock-released] !held(s.mu)
+//@   -- rate limit (C19): the entry of the address counts the requests of the current accounting second exactly;
+//@   -- a request is refused exactly when its count exceeds the limit; without a limit nothing is refused
+//@   assert [rate-entry]{C19} before "s.mu.Unlock()": limit != nil && limit.count == count
+//@   assert [rate-window]{C19} before "s.mu.Unlock()": old(allocated(now(limit))) && limit.first - old(now(limit).first) == 0 ==> count == old(now(limit).count) + 1
+//@   assert [rate-new-window]{C19} before "s.mu.Unlock()": count == 1 || (old(allocated(now(limit))) && limit.first == old(now(limit).first) && count == old(now(limit).count) + 1)
+//@   assert [rate-deny]{C19} before "WriteHeader(http.StatusTooManyRequests)": s.conf.API.RateLimit > 0 && count > s.conf.API.RateLimit
+//@   assert [rate-pass]{C19} before call matchV2#1: s.conf.API.RateLimit > 0 ==> count <= s.conf.API.RateLimit
+//@   ensures [no-limit-no-429]{C19} old(s.store != nil) && s.conf.API.RateLimit <= 0 ==> resp.status != 429
 //@   loop 1: invariant [warnings] s != nil && resp != nil && resp.status == 0 && !fault() && mutations() == old(mutations()) && rangeindex < len(s.conf.API.Warnings)
+
+//@ func referrerSplit(inBytes []byte, limit int64) (result [][]byte, err error)
+//@   props C07 C15
+//@   -- an entry is only left out when a page holding it alone is larger than the limit
+//@   assert [dropped-only-if-too-large]{C07} before "single descriptor greater than limit": len(next) > limit
